@@ -19,4 +19,7 @@ def units(ctx):
         # free-running contention, holders discipline validated by TLC
         TraceUnit("syncutils", "LockHold", "contend", args=["-traces", 20, "-ops", 30],
                   thorough_args=["-traces", 200, "-ops", 40]),
+        # free-running rounds on syncutils.Stack: parked consumers, then producers and condition waiters together; at the
+        # quiescent end nobody may be blocked whose wake-up condition holds (every change is broadcast, on every path)
+        TraceUnit("syncutils", "StackRun", "stackrun", args=["-traces", 150], thorough_args=["-traces", 2000]),
     ]
